@@ -33,6 +33,10 @@ let history (c : nat) (ops : op list) : string =
            (match r with
             | None -> Buffer.add_string buf " N"
             | Some id ->
+              (* several distinct elements under this hash so far: which one is met first depends
+                 on the slot layout; only "one of them" is compared (see the harness) *)
+              let distinct = List.sort_uniq compare (List.filteri (fun j _ -> j < k) (List.filter_map (function I (e, h') when h' = h -> Some e | _ -> None) (List.filteri (fun j _ -> j < k) ops))) in
+              if List.length distinct >= 2 then Buffer.add_string buf " A" else
               (match Hashtbl.find_opt first (int_of_nat id) with
                | Some c -> Buffer.add_string buf (Printf.sprintf " %d" c)
                | None -> Buffer.add_string buf " ?"))
